@@ -25,6 +25,17 @@ MaxOf(seq) == IF Len(seq) = 0 THEN 0 ELSE
 
 LimitKinds == {"decode", "stream", "count", "depth", "image"}
 
+(* Operations are flows: the document is read (and validated), optionally migrated into a derived context (its   *)
+(* pages extracted into a new context - what trim, collect, split and extract pages do - or merged into another  *)
+(* document), and then a consumer touches the stream.  The limits are configuration, not a property of the       *)
+(* context a stream was read into: every context of a flow is bound by them, in particular a stream that is      *)
+(* decoded for the first time only in the derived context.  Only page level streams migrate with their pages.    *)
+Derivations == {"pages", "merge"}
+Consumers(cont) == CASE cont = "content" -> {"content", "optimize", "write"}
+                     [] cont = "image"   -> {"images", "optimize", "write"}
+                     [] OTHER            -> {}
+DerivedFlows(cont) == {<<d, c>> : d \in Derivations, c \in Consumers(cont)}
+
 Min(a, b) == IF a < b THEN a ELSE b
 
 (* What the configured limits allow one stream to occupy, in bytes: its encoded bytes up to         *)
